@@ -253,3 +253,36 @@ func (verifNoCache11) SetWithExpire(internal.CacheKey, *cacheItem, timeDuration)
 func (verifNoCache11) Get(internal.CacheKey) (*cacheItem, bool)                 { return nil, false }
 func (verifNoCache11) Clear()                                                   {}
 func (verifNoCache11) Len() int                                                 { return 0 }
+
+// VerifC11Bucket: names whose SHA-256 digests share the two-byte prefix (a real
+// collision: "3z" and "7t") are all matched, in whatever order the list gives them,
+// and unlisted names are not.
+//
+//verif:harness name=H11g-bucket tier=quick,thorough bounds="list of 2..4 of the concrete names {3z, 7t, x.example, y.example} in every order (3z and 7t share their two-byte SHA-256 prefix); probe from the four names and two unlisted ones; real SHA-256 (concrete inputs)" reach=matched,not-matched,shared-bucket
+func VerifC11Bucket() {
+	names := []string{"3z", "7t", "x.example", "y.example"}
+	var list []string
+	used := [4]bool{}
+	n := 2 + verifChoice(3)
+	for i := 0; i < n; i++ {
+		k := verifChoice(len(names))
+		verifAssume(!used[k])
+		used[k] = true
+		list = append(list, names[k])
+	}
+	s, err := NewStorage(strings.Join(list, "\n") + "\n")
+	verifAssert("list-loads", err == nil)
+	probes := append(append([]string{}, names...), "3y", "z.example")
+	pi := verifChoice(len(probes))
+	want := pi < len(names) && used[pi]
+	got := s.Matches(probes[pi])
+	verifAssert("bucket-matches-iff-listed", got == want)
+	if used[0] && used[1] {
+		verifReach("shared-bucket")
+	}
+	if got {
+		verifReach("matched")
+	} else {
+		verifReach("not-matched")
+	}
+}
